@@ -533,7 +533,7 @@ Lemma sqrt_congr : forall a b, a = b -> sqrt a = sqrt b.
 Proof. intros. subst. reflexivity. Qed.
 
 Ltac g_unfold :=
-  cbv [run evalc eval gpow env_seg env_interp nth RA ar_add ar_sub ar_mul ar_div ar_neg ar_ofZ ar_pi ar_sqrt ar_eqb
+  cbv [run evalc eval gpow env_seg env_interp nth RA ar_add ar_sub ar_mul ar_div ar_neg ar_ofZ ar_pi ar_sqrt ar_powhalf ar_eqb
        p_x p_y p_z p_d].
 
 (* make the radicands of the two sides syntactically equal where ring can show them equal *)
